@@ -87,6 +87,7 @@ type RealCluster struct {
 	ProbeTimeout   time.Duration
 	ProbeInterval  time.Duration
 	SettleTimeout  time.Duration
+	TLSConfigFile  string // --cluster.tls-config: gossip over the TLS transport
 }
 
 // Outcome of one scripted delivery attempt.
@@ -332,6 +333,7 @@ func Start(o Options) (*Instance, error) {
 		ao.ProbeTimeout = rc.ProbeTimeout
 		ao.ProbeInterval = rc.ProbeInterval
 		ao.SettleTimeout = rc.SettleTimeout
+		ao.TLSConfigFile = rc.TLSConfigFile
 	}
 	// app.New is serialised: concurrent construction of several instances in one process races inside
 	// go-openapi on the cached swagger document (outside every property; it would only add race-detector noise)
